@@ -173,7 +173,7 @@ func OracleCancel(prop string, v *View) []Violation {
 	type depState struct {
 		src                         string
 		start, end, sig, ctx, close int64
-		signal                      bool
+		signal, written             bool
 	}
 	deps := map[int]*depState{}
 	for _, e := range v.Events {
@@ -202,6 +202,8 @@ func OracleCancel(prop string, v *View) []Violation {
 		case world.EvConnClose:
 			if d.close < 0 {
 				d.close = e.Seq
+				// the engine wrote the signal to the connection, whether or not the SDK's server delivered it
+				d.written, _ = e.Data["signal_written"].(bool)
 			}
 		}
 	}
@@ -227,7 +229,7 @@ func OracleCancel(prop string, v *View) []Violation {
 		reached := (d.end >= 0 && d.end <= c.EndSeq) || (d.sig >= 0 && d.sig <= c.EndSeq) || (d.ctx >= 0 && d.ctx <= c.EndSeq)
 		if !reached {
 			out = append(out, viol(prop, "plugin-not-reached", "", "plugin %s (deployment %d) was executing when the caller cancelled but saw neither a cancel signal nor a shutdown before Execute returned", d.src, n))
-		} else if d.signal && !(d.sig >= 0 && d.sig <= c.EndSeq) && !(d.end >= 0 && d.end <= c.EndSeq) && d.start < d.close && (d.ctx < 0 || d.start < d.ctx) {
+		} else if d.signal && !d.written && !(d.sig >= 0 && d.sig <= c.EndSeq) && !(d.end >= 0 && d.end <= c.EndSeq) && d.start < d.close && (d.ctx < 0 || d.start < d.ctx) {
 			// (a handler that only started after its connection had been closed was never really executing)
 			// it has a cancel signal handler, did not finish by itself, and was shut down without being asked to stop
 			out = append(out, viol(prop, "plugin-closed-without-cancel-signal", "", "plugin %s (deployment %d) supports the cancel signal and was executing during the shutdown, but it was closed (decision %d) without ever being sent the signal", d.src, n, d.ctx))
